@@ -222,7 +222,7 @@ func runC18(c *fw.Ctx) {
 					if o.Search {
 						attempt := 0
 						var amu sync.Mutex
-						results[i].vals = p.Search(o.Count, func() interface{} {
+						got := p.Search(o.Count, func() interface{} {
 							amu.Lock()
 							k := attempt
 							attempt++
@@ -238,8 +238,10 @@ func runC18(c *fw.Ctx) {
 							}
 							return k + 1
 						})
+						// what the caller sees AT RETURN TIME (workers may still write into the slice later)
+						results[i].vals = append([]interface{}{}, got...)
 					} else {
-						results[i].vals = p.Parallelize(o.Count, func(j int) interface{} {
+						got := p.Parallelize(o.Count, func(j int) interface{} {
 							s.setTask(fmt.Sprintf("p%d", j))
 							for y := 0; y < o.Yields[j]; y++ {
 								s.yield("task:run")
@@ -247,6 +249,7 @@ func runC18(c *fw.Ctx) {
 							s.setTask("")
 							return 1000*i + j
 						})
+						results[i].vals = append([]interface{}{}, got...)
 					}
 					s.yield("caller:between-ops")
 				}
